@@ -162,6 +162,12 @@ where
         }
     }
 
+    /// Absolute offset of the oldest retained entry.
+    #[cfg(rumqtt_verif)]
+    pub fn verif_head_offset(&self) -> u64 {
+        self.segments.front().unwrap().absolute_offset
+    }
+
     #[inline]
     pub fn last(&self) -> Option<T> {
         self.active_segment().last()
